@@ -130,22 +130,36 @@ def to_valpattern(vs):
     raise ValueError(vs)
 
 
-def to_pattern(p):
+def to_pattern(p, shared=None, built=None):
+    """shared: name -> spec of pattern objects that are used at several
+    places (['use', name]); built: memo, so that every use is the SAME
+    object."""
     from sc3.seq.patterns.eventpatterns import Pbind, Pmono, Ppar, Pchain
-    from sc3.seq.patterns.filterpatterns import Pdur, Pdelta
+    from sc3.seq.patterns.filterpatterns import Pdur, Pdelta, Pn
+    from sc3.seq.patterns.listpatterns import Pseq
+    built = {} if built is None else built
+    rec = lambda c: to_pattern(c, shared, built)
     kind = p[0]
+    if kind == 'use':
+        if p[1] not in built:
+            built[p[1]] = rec(shared[p[1]])
+        return built[p[1]]
+    if kind == 'pseq':
+        return Pseq([rec(c) for c in p[1]])
+    if kind == 'pn':
+        return Pn(rec(p[2]), p[1])
     if kind == 'pbind':
         return Pbind({k: to_valpattern(v) for k, v in p[1].items()})
     if kind == 'pmono':
         return Pmono(p[1], {k: to_valpattern(v) for k, v in p[2].items()})
     if kind == 'ppar':
-        return Ppar(*[to_pattern(c) for c in p[1]])
+        return Ppar(*[rec(c) for c in p[1]])
     if kind == 'pchain':
-        return Pchain(to_pattern(p[1]), to_pattern(p[2]))
+        return Pchain(rec(p[1]), rec(p[2]))
     if kind == 'pdur':
-        return Pdur(p[1], to_pattern(p[2]))
+        return Pdur(p[1], rec(p[2]))
     if kind == 'pdelta':
-        return Pdelta(p[1], to_pattern(p[2]))
+        return Pdelta(p[1], rec(p[2]))
     raise ValueError(p)
 
 
@@ -275,8 +289,15 @@ def run_timeline_case(case):
     s = Server.default
     old = s.latency
     s.latency = case['latency']
-    pat = to_pattern(case['pattern'])
+    pat = to_pattern(case['pattern'], case.get('shared'))
     proto = event({'c14proto': 1}) if case['proto'] == 'event' else None
+    if case.get('plays'):
+        try:
+            _run_plays(case, pat, proto)
+            collect(cap)
+        finally:
+            s.latency = old
+        return cap, 0.0
 
     def clock_of():
         c = case['clock']
@@ -301,6 +322,36 @@ def run_timeline_case(case):
     finally:
         s.latency = old
     return cap, start
+
+
+def _run_plays(case, pat, proto):
+    """The same pattern object played several times (one EventStreamPlayer
+    per play), some players stopped mid-way, all driven from one routine on
+    SystemClock.  plays: [{'at': t, 'stop': t2 | None}] (absolute seconds)."""
+    from sc3.base.stream import Routine
+    from sc3.base.clock import SystemClock, TempoClock
+    actions = []
+    for i, pl in enumerate(case['plays']):
+        actions.append((pl['at'], 0, 'play', i))
+        if pl.get('stop') is not None:
+            actions.append((pl['stop'], 1, 'stop', i))
+    actions.sort()
+    players = {}
+
+    def body():
+        now = 0.0
+        for t, _, what, i in actions:
+            if t > now:
+                yield t - now
+                now = t
+            if what == 'play':
+                c = case['clock']
+                clock = None if c == 'default' else SystemClock \
+                    if c == 'system' else TempoClock(1)
+                players[i] = pat.play(clock, 0, proto=proto)
+            else:
+                players[i].stop()
+    Routine(body).play(SystemClock)
 
 
 # ------------------------------------------------------------------ expectations
@@ -350,32 +401,56 @@ def expect_program(prog, times, info, groups):
     return ex
 
 
+def case_timelines(case, start):
+    """[(start time, Timeline)] of a case, and the expected time of the last
+    wake-up (None: not asserted)."""
+    pat = me.expand(case['pattern'], case.get('shared') or {})
+    if not case.get('plays'):
+        tl = me.timeline(pat)
+        return [(start, tl)], start + tl.total
+    out, total = [], 0.0
+    for pl in case['plays']:
+        tl = me.timeline(pat)
+        if pl.get('stop') is not None:
+            tl = me.stopped(tl, pl['stop'] - pl['at'])
+            total = None        # a stopped player leaves a pending wake-up
+        elif total is not None:
+            total = max(total, pl['at'] + tl.total)
+        out.append((pl['at'], tl))
+    return out, total
+
+
 def expect_timeline(case, start, info, groups):
-    tl = me.timeline(case['pattern'])
+    tls, total = case_timelines(case, start)
     ex = Expect()
     ex.group_id = groups['id']
     L = case['latency']
-    for onset, e in tl.items:
-        if e.rest:
-            ex.rests += 1
-            if 'tag' in e.keys:
-                ex.rest_tags.add(e.keys['tag'])
-            continue
-        if e.kind == 'mono_set':
-            ex.sets.append({'tag': e.keys['tag'], 'time': start + onset + L,
-                            'mono': e.mono[0], 'ev': e.keys,
-                            'res': me.resolve(e.keys),
-                            'desc': info[e.mono[1]]})
-        else:
-            ex.notes.append(expect_note(e.keys, start + onset, L, info, groups,
-                                        e.kind, e.mono))
-    monos = {n['mono']: n for n in ex.notes if n['mono'] is not None}
-    for t, m, exact in tl.releases:
-        if m in monos:
-            ex.releases.append({'mono': m, 'time': start + t + L,
-                                'exact': exact})
-    ex.total = start + tl.total
-    ex.tl = tl
+    ex.flags = set()
+    for st, tl in tls:
+        ex.flags |= tl.flags
+        first = len(ex.notes)
+        for onset, e in tl.items:
+            if e.rest:
+                ex.rests += 1
+                if 'tag' in e.keys:
+                    ex.rest_tags.add(e.keys['tag'])
+                continue
+            if e.kind == 'mono_set':
+                ex.sets.append({'tag': e.keys['tag'], 'time': st + onset + L,
+                                'mono': e.mono[0], 'ev': e.keys,
+                                'res': me.resolve(e.keys),
+                                'desc': info[e.mono[1]]})
+            else:
+                ex.notes.append(expect_note(e.keys, st + onset, L, info,
+                                            groups, e.kind, e.mono))
+        monos = {n['mono'] for n in ex.notes[first:] if n['mono'] is not None}
+        for t, m, exact in tl.releases:
+            if m in monos:
+                ex.releases.append({'mono': m, 'time': st + t + L,
+                                    'exact': exact})
+    ex.total = total
+    ex.tl = tls[0][1]
+    ex.tls = tls
     return ex
 
 
@@ -443,6 +518,9 @@ def compare(ex, cap, acc, mon, offgrid=False):
                             [r['args'][1]] and g['args'][1:] == ['gate', 0]:
                         g['used'] = True
                 break
+    mult = {}
+    for n in ex.notes:
+        mult[n['tag']] = mult.get(n['tag'], 0) + 1
     for n in ex.notes:
         if n['tag'] in stale:
             r = stale[n['tag']]
@@ -451,14 +529,27 @@ def compare(ex, cap, acc, mon, offgrid=False):
                          'sent': r['args'], 't': r['t']}))
             continue
         cand = by_tag.get(n['tag'], [])
-        if not cand:
-            bad.append((f"missing-s_new/{n['kind']}", {'tag': n['tag']}))
-            continue
-        if len(cand) > 1:
-            bad.append((f"duplicate-s_new/{n['kind']}", {'tag': n['tag']}))
-        r = cand[0]
-        for c in cand:
-            c['used'] = True
+        if mult[n['tag']] > 1:
+            # the same event of the same pattern object in several embeddings:
+            # equal expectations except for the time, so match by time
+            r = next((c for c in cand if not c['used']
+                      and ttol(c['t'], n['time'])), None)
+            if r is None:
+                bad.append((f"missing-s_new/{n['kind']}/repeated-embedding",
+                            {'tag': n['tag'], 'expected_at': n['time'],
+                             'sent_at': [c['t'] for c in cand]}))
+                continue
+            r['used'] = True
+            acc.count(f'{mon}_repeated_embedding_s_new_checked')
+        else:
+            if not cand:
+                bad.append((f"missing-s_new/{n['kind']}", {'tag': n['tag']}))
+                continue
+            if len(cand) > 1:
+                bad.append((f"duplicate-s_new/{n['kind']}", {'tag': n['tag']}))
+            r = cand[0]
+            for c in cand:
+                c['used'] = True
         if n.get('prev_tags'):
             acc.count(f"{mon}_replay_s_new_checked")
             acc.count(f"{mon}_replay_{n.get('op')}")
@@ -567,7 +658,12 @@ def compare(ex, cap, acc, mon, offgrid=False):
         if not r['used']:
             tags = [v for n_, v in (_pairs(r['args'][4:]) or [])
                     if n_ == 'tag'] if r['addr'] == '/s_new' else []
-            if tags and tags[0] in ex.rest_tags:
+            if tags and mult.get(tags[0], 0) > 1:
+                bad.append(('extra-s_new/repeated-embedding',
+                            {'t': r['t'], 'tag': tags[0],
+                             'expected_times': [n['time'] for n in ex.notes
+                                                if n['tag'] == tags[0]]}))
+            elif tags and tags[0] in ex.rest_tags:
                 bad.append(('rest-sent-traffic', {'t': r['t'],
                                                   'args': r['args']}))
             else:
